@@ -5,8 +5,10 @@ package main
 
 import (
 	"encoding/json"
+	stderrors "errors"
 	"flag"
 	"fmt"
+	"io"
 	"os"
 	"path/filepath"
 	"sort"
@@ -233,6 +235,25 @@ func apiCalls(text string, emit func(apiEvent)) {
 	emit(classify("doc.LenTrailing", in, src(map[string]int{"doc": len(text)}), func() error {
 		_, e := jdoc.New("doc", text, jdoc.AllowTrailingNonSpaceCharacters()).Len()
 		return e
+	}))
+	// the event interface, read to the end and six calls beyond the first error or io.EOF: every call returns, none panics,
+	// and whatever error is returned is a library error (the last one is judged)
+	emit(classify("doc.NextLexeme*", in, src(map[string]int{"doc": len(text)}), func() error {
+		d := jdoc.New("doc", text)
+		var last error
+		beyond := 0
+		for i := 0; i < 4*len(text)+40 && beyond < 6; i++ {
+			_, e := d.NextLexeme()
+			if e != nil {
+				beyond++
+				if !stderrors.Is(e, io.EOF) {
+					last = e
+				}
+			} else if beyond > 0 {
+				beyond++
+			}
+		}
+		return last
 	}))
 	emit(classify("doc.Validate(any)", in, src(map[string]int{"doc": len(text), "root": 18}), func() error {
 		return jschema.New("root", `1 // {type: "any"}`).Validate(jdoc.New("doc", text))
